@@ -45,6 +45,7 @@ class ConnGen:
         self.pool = ifaces or [i for i in proto if i not in ('fake_enums', 'wl_display', 'wl_registry')]
         self.freed = []            # client ids deleted (reusable)
         self.maxgen = {}
+        self.titles = 0.0          # rate of messages that give the connection a title / application id
         self.unres = 0.0           # rate of messages about objects the log never saw being created (capture started mid-session)
 
     # ------------------------------------------------------------------
@@ -157,7 +158,7 @@ class ConnGen:
         return {'e': 'msg', 'tag': self.tag, 't': t,
                 'm': {'ttype': iface, 'tid': target.id, 'name': msg, 'sent': self.sent(iface, msg), 'args': args}}
 
-    def custom(self, t):
+    def custom(self, t, title=False):
         r = self.r
         mine = self.anyobj(lambda o: o.type in ('zz_custom_v1', 'zz_child_v1'))
         if not mine or r.random() < 0.2:
@@ -171,7 +172,19 @@ class ConnGen:
         o = r.choice(mine)
         c = r.random()
         sent = r.random() < 0.5
-        if c < 0.3:
+        if c < 0.25 or title:
+            # what a client says about itself: the connection's title and application id
+            name = r.choice(['set_app_id', 'set_app_id', 'set_title', 'get_layer_surface'])
+            txt = r.choice(['org.gnome.gedit', 'firefox', 'com.example.App.', 'Untitled 1', '', 'a.b', 'kitty', 'weston-terminal', '.hidden', 'ALLCAPS'])
+            if name == 'get_layer_surface':
+                args = [{'k': 'nil', 'type': ''}, {'k': 'nil', 'type': ''}, {'k': 'nil', 'type': ''}, {'k': 'int', 'v': 2}, {'k': 'str', 's': txt}]
+            elif r.random() < 0.1:
+                args = [{'k': 'int', 'v': 5}]
+            else:
+                args = [{'k': 'str', 's': txt}]
+            return {'e': 'msg', 'tag': self.tag, 't': t,
+                    'm': {'ttype': o.type, 'tid': o.id, 'name': name, 'sent': sent, 'args': args}}
+        if c < 0.45:
             # looks like the display's delete_id, but is not: no object is destroyed by it
             victims = self.anyobj(lambda x: x.id > 1)
             args = [{'k': 'int', 'v': r.choice(victims).id if victims else 3}]
@@ -231,6 +244,10 @@ class ConnGen:
                               'args': [{'k': 'new', 'type': 'wl_registry', 'id': o.id}]}}
         if self.unres and r.random() < self.unres:
             return self.stray(t)
+        if self.titles and r.random() < self.titles and self.live(lambda o: o.type == 'wl_registry'):
+            ev = self.custom(t, title=True)
+            if ev is not None:
+                return ev
         for _ in range(50):
             c = r.random()
             regs = self.live(lambda o: o.type == 'wl_registry')
@@ -314,13 +331,13 @@ CORE_IFACES = ['wl_compositor', 'wl_surface', 'wl_region', 'wl_shm', 'wl_shm_poo
 
 class SessionGen:
     def __init__(self, seed, nconn=(1, 3), nmsg=(10, 40), junk=0.1, cmds=0.0, core=True, dy=False, tags=True,
-                 matcher_depth=1, show=None, with_init_filter=0.0, unresolved=0.0, zero_start=0.15):
+                 matcher_depth=1, show=None, with_init_filter=0.0, unresolved=0.0, zero_start=0.15, titles=0.0):
         self.r = random.Random(seed)
         d = protoextract.load()
         self.proto, self.kinds, self.amb = d['proto'], d['kinds'], set(d['amb_msgs'])
         self.opt = dict(nconn=nconn, nmsg=nmsg, junk=junk, cmds=cmds, core=core, dy=dy, tags=tags,
                         matcher_depth=matcher_depth, show=show, with_init_filter=with_init_filter, unresolved=unresolved,
-                        zero_start=zero_start)
+                        zero_start=zero_start, titles=titles)
 
     def session(self):
         r, o = self.r, self.opt
@@ -336,6 +353,7 @@ class SessionGen:
         conns = [ConnGen(r, tg, r.random() < 0.3, self.proto, self.kinds, self.amb, pool) for tg in tags]
         for c in conns:
             c.unres = o['unresolved']
+            c.titles = o['titles']
         n = r.randint(*o['nmsg'])
         t = r.choice([0, 5, 770203519, 1999000000]) if not o['dy'] else r.choice([0, 125000 * 8, 125000 * 12345])
         events = []
@@ -382,6 +400,7 @@ class MatcherGen:
         self.ints = [0, 1, 2]
         self.strs = ['hello']
         self.raws = [0, 384]
+        self.appids = []
         self.nconn = 1
 
     def learn(self, ev, conns):
@@ -389,6 +408,8 @@ class MatcherGen:
         proto = protoextract.load()['proto']
         self._add(self.types, m['ttype'])
         self._add(self.names, m['name'])
+        if m['name'] == 'set_app_id' and m['args'] and m['args'][0]['k'] == 'str' and m['args'][0]['s'].isascii() and m['args'][0]['s']:
+            self._add(self.appids, m['args'][0]['s'])
         self._add(self.ids, m['tid'])
         desc = proto.get(m['ttype'], {}).get('msgs', {}).get(m['name'], [])
         for k, a in enumerate(m['args']):
@@ -594,7 +615,10 @@ class MatcherGen:
             if c < 0.4:
                 return {'e': 'cmd', 'c': 'conn', 'arg': 'all'}
             if c < 0.5:
-                return {'e': 'cmd', 'c': 'conn', 'arg': r.choice(['Q', 'zz', '1', 'AAA'])}
+                if self.appids and r.random() < 0.7:
+                    a = r.choice(self.appids)
+                    return {'e': 'cmd', 'c': 'conn', 'arg': r.choice([a, a.upper(), a.lower(), a.swapcase()])}
+                return {'e': 'cmd', 'c': 'conn', 'arg': r.choice(['Q', 'zz', '1', 'AAA', 'org.gnome.gedit', 'FIREFOX', 'firefox', 'a.b', 'kitty', 'a', 'b'])}
             return {'e': 'cmd', 'c': 'conn', 'arg': mrender.letters(r.randrange(max(1, nconn))).upper()}
         if k < 0.93:
             return {'e': 'cmd', 'c': 'other', 'text': r.choice(['help', 'help list', 'bogus', '', 'matcher wl_surface', 'h',
